@@ -565,6 +565,10 @@ def clauses_c06(ex, obs) -> list:
     if not any(ev[0] == "reuse-accepted" for ev in ex.events):
         for i, got in obs["lookups"].items():
             nd = m.nodes[i]
+            if fate_any_removed_through_parent(ex, nd.ws, str(ex.uid[i])):
+                # the identifier was re-used after parent.remove_children left the old node in
+                # the file: what the stale node does to its successor is the C02 / C05 finding
+                continue
             if len(got) != 1 or got[0] is None or got[0][0] != str(ex.uid[i]) or got[0][2] != nd.name:
                 out.append(("lookup-returns-owner", f"{nd.kind}", {"idx": i, "got": got, "want": [str(ex.uid[i]), nd.name]}))
     # (d) identifiers of copies
